@@ -47,6 +47,7 @@ type Op struct {
 	Name int    `json:"name,omitempty"`
 	User bool   `json:"user,omitempty"`
 	I    int    `json:"i,omitempty"`   // copy: chain position on the source (1 = base)
+	Widen bool  `json:"widen,omitempty"` // bw: what a controller that completes partial blocks itself would send (rehearsal of patch f13)
 	Mid  []Op   `json:"mid,omitempty"` // ulm: writes performed between the two critical sections
 	Race []Op   `json:"race,omitempty"` // ulmrace: writes issued by a concurrent writer
 }
@@ -65,6 +66,9 @@ type Case struct {
 	Ev    []Op   `json:"ev"`
 	Snap  int    `json:"snap"`
 	Sleep int    `json:"sleep_us"` // ulm: how long the harness lets the preload run before the mid writes
+	// NoPunch: the prehistory ran without reclamation (types.ShouldPunchHoles false, e.g. a volume whose
+	// replicas never reloaded); reclamation is on from the add / clone on
+	NoPunch bool `json:"nopunch"`
 }
 
 type Side struct {
@@ -368,7 +372,7 @@ func (r *runner) buf(op Op) []byte {
 
 // block ops of a prehistory on one server (punching on: the replica is RW in its own process)
 func (r *runner) blockOp(s *replica.Server, dir string, op Op) error {
-	types.ShouldPunchHoles = true
+	types.ShouldPunchHoles = !r.c.NoPunch
 	defer hx.QuiesceHoles()
 	switch op.K {
 	case "w":
@@ -398,7 +402,9 @@ func (r *runner) blockOp(s *replica.Server, dir string, op Op) error {
 	case "reload":
 		hx.QuiesceHoles()
 		s.SetPreload(true)
-		return s.Reload()
+		err := s.Reload() // sets types.ShouldPunchHoles
+		types.ShouldPunchHoles = !r.c.NoPunch
+		return err
 	}
 	return fmt.Errorf("unknown prehistory op %s", op.K)
 }
@@ -406,6 +412,18 @@ func (r *runner) blockOp(s *replica.Server, dir string, op Op) error {
 // bothWrite: the controller's fan-out, source first
 func (r *runner) bothWrite(op Op, dstLocked bool) error {
 	b := r.buf(op)
+	if op.Widen {
+		// the enclosing whole blocks, completed from the healthy replica, go to both
+		lo := op.Off * r.unit / blk * blk
+		hi := (op.Off*r.unit + int64(len(b)) + blk - 1) / blk * blk
+		wide := make([]byte, hi-lo)
+		if _, err := r.src.ReadAt(wide, lo); err != nil {
+			return fmt.Errorf("src read: %v", err)
+		}
+		copy(wide[op.Off*r.unit-lo:], b)
+		b = wide
+		op.Off = lo / r.unit
+	}
 	types.ShouldPunchHoles = true
 	if _, err := r.src.WriteAt(b, op.Off*r.unit); err != nil {
 		return fmt.Errorf("src: %v", err)
@@ -643,14 +661,14 @@ func (r *runner) side(s *replica.Server, dir, tag string) (*Side, error) {
 	return o, nil
 }
 
-func openServer(dir string, create bool, size int64, mode string) (*replica.Server, error) {
+func openServer(dir string, create bool, size int64, mode string, preload bool) (*replica.Server, error) {
 	s := replica.NewServer("127.0.0.1:9502", dir, blk, "")
 	if create {
 		if err := s.Create(size); err != nil {
 			return nil, fmt.Errorf("create: %v", err)
 		}
 	}
-	s.SetPreload(false)
+	s.SetPreload(preload)
 	if err := s.Open(); err != nil {
 		return nil, fmt.Errorf("open: %v", err)
 	}
@@ -682,7 +700,7 @@ func runCase(c Case, work string) (out Out) {
 	}
 	types.ShouldPunchHoles = false
 	var err error
-	if r.src, err = openServer(r.sdir, true, c.NB*blk, "RW"); err != nil {
+	if r.src, err = openServer(r.sdir, true, c.NB*blk, "RW", false); err != nil {
 		return fail("src: %v", err)
 	}
 	closeAll := func() {
@@ -720,7 +738,7 @@ func runCase(c Case, work string) (out Out) {
 			return fail("%v", err)
 		}
 		// a fresh replica; for a clone it waits in mode WO like every replica being filled
-		if r.dst, err = openServer(r.ddir, true, c.NB*blk, "WO"); err != nil {
+		if r.dst, err = openServer(r.ddir, true, c.NB*blk, "WO", false); err != nil {
 			return fail("dst: %v", err)
 		}
 	}
@@ -773,7 +791,8 @@ func (r *runner) forkDst() error {
 	}
 	var err error
 	types.ShouldPunchHoles = false
-	if r.dst, err = openServer(r.ddir, false, 0, "RW"); err != nil {
+	// a member that starts: Open preloads the block map; punching is still off in a starting process
+	if r.dst, err = openServer(r.ddir, false, 0, "RW", true); err != nil {
 		return err
 	}
 	for i, op := range r.c.DPre {
